@@ -10,6 +10,7 @@ See DESIGN.md section 3 (C20).
 from __future__ import annotations
 
 import copy
+import hashlib
 import itertools
 import random
 
@@ -140,6 +141,31 @@ def _outcome(fn):
         return ("raise", exc)
 
 
+class Variant(int):
+    """The variant number an entry receives.  Entries pick their options with `p % n` and `(p // a) % n`; with a plain
+    integer those picks are coupled whenever the moduli share a factor (p % 2 and p % 6: half of the combinations can
+    never occur).  Here every (divisor chain, modulus) pair is an independent pseudo-random digit of the variant number,
+    so every combination of options is reachable.  `Variant(0)` keeps all digits at 0 (the minimised form)."""
+
+    def __new__(cls, value, path="p"):
+        obj = super().__new__(cls, int(value))
+        obj._path = path
+        return obj
+
+    def _digit(self, key):
+        if int(self) == 0:
+            return 0
+        return int.from_bytes(hashlib.sha256(f"variant:{int(self)}:{self._path}:{key}".encode()).digest()[:8], "big")
+
+    def __mod__(self, n):
+        n = int(n)
+        return 0 if int(self) == 0 else self._digit(f"%{n}") % n
+
+    def __floordiv__(self, a):
+        v = Variant(int(self), self._path + f"//{int(a)}")
+        return v
+
+
 def _flatten(obs):
     out = []
     if obs is None:
@@ -224,7 +250,7 @@ def _run_entry(ctx, entry, opts, baseline):
     ctx.rng.set_behaviour("uniform", 12345)
     env = CallEnv(opts, baseline=baseline)
     fn = CATALOGUE[entry]
-    oc = _outcome(lambda: _flatten(fn(env, opts.get("p", 0))))  # materialised at once (generators!)
+    oc = _outcome(lambda: _flatten(fn(env, Variant(opts.get("p", 0)))))  # materialised at once (generators!)
     return env, oc
 
 
@@ -322,7 +348,7 @@ def _run_entry_no_restore(ctx, entry, opts):
     ctx.rng.set_behaviour("uniform", 12345)
     env = CallEnv(opts, baseline=True)
     fn = CATALOGUE[entry]
-    return env, _outcome(lambda: _flatten(fn(env, opts.get("p", 0))))
+    return env, _outcome(lambda: _flatten(fn(env, Variant(opts.get("p", 0)))))
 
 
 class CallerEnvEngine:
@@ -372,7 +398,7 @@ class CallerEnvEngine:
         ops = []
         for _ in range(rng.randint(3, 12)):
             e = rng.choices(subset, weights=w)[0]
-            opts = {"mseed": rng.randrange(10**9), "cbseed": rng.randrange(10**9), "alias": rng.random() < 0.2, "p": rng.randrange(60)}
+            opts = {"mseed": rng.randrange(10**9), "cbseed": rng.randrange(10**9), "alias": rng.random() < 0.2, "p": rng.randrange(100000)}
             if submode == "program-enum":
                 opts["enum"] = True
             ops.append(["call", e, opts])
